@@ -24,6 +24,15 @@ NOTES = {
  'C11-D': 'missed at first; all starred amsmath environments added',
  'C19-C': 'missed at first; comment directly behind \\\\ added as hidden context',
  'C19-D': 'missed at first; shell route run with option mixes (--multi-language, --output json ..)',
+ 'C06-C': 'missed at first; letter x in the alphabet and a quarter of the runs with the no-specials option',
+ 'C14-C': 'missed at first; family of words whose source is longer than their plain text (accent macro, group boundary, comment + line break inside)',
+ 'C14-D': 'missed by C14 at first (caught by C17); C14 now starts its server with --lt-options and checks the proofreader argv per request',
+ 'C15-D': 'missed by C15 at first (caught by C16); answers with a long multi-line match followed by short ones, at context 0',
+ 'C16-C': 'missed at first; form feed, U+2028 and other exotic line separators added to the source alphabet',
+ 'C17-D': 'missed at first; pool pairs with equal document class and different package lists added',
+ 'C18-C': 'missed at first; left-over LT-SKIP-END marker in front of a complete skip region',
+ 'C18-D': 'missed at first; removed environments (lstlisting, tikzpicture with inner environments) added as hidden contexts after fix F2',
+ 'C20-C': 'missed at first; shell sample also run with --multi-language and language-change placeholders',
 }
 rows = []
 for d in sorted(glob.glob('/verif/seeded/*')):
